@@ -47,7 +47,8 @@ THEOREMS = [
     "cas_success_iff", "cas_fail_unchanged", "cas_success_writes", "cas_success_resolves",
     "remove_cas_success_iff", "remove_cas_fail_unchanged", "remove_cas_success_removes",
     "add_if_new_never_overwrites", "add_if_new_success_iff",
-    "cas_atomic_second_fails", "cas_linearizable_under_lock", "cas_race_witness", "cas_legacy_witness",
+    "cas_linearizable_under_lock", "cas_atomic_schedules", "cas_atomic_second_fails",
+    "cas_race_witness", "cas_legacy_witness",
 ]
 
 RULE = ("stores over 6 ref names x values {absent, loose sha, packed sha, both, symref (chain, dangling, loop)}; "
